@@ -446,6 +446,13 @@ def c11(run, replay=None):
             for kind in E.INVALID_TEXT:
                 cases.append(dict(files={"main.rh": dict(tasks=valid[:n], invalid=(pos, kind))}, desc=dict(valid_tasks=n, invalid_position=pos, kind=kind)))
     cases.append(dict(files={"main.rh": dict(raw="#!/usr/bin/env rash\nkey: value\n")}, desc=dict(kind="non-sequence file")))
+    # a file whose top level is ONE task written without its leading dash (a mapping that would be a valid task), a
+    # string, a number: not a task list
+    cases.append(dict(files={"main.rh": dict(raw="#!/usr/bin/env rash\nname: one task without a dash\ncommand: \"sh -c 'echo k1 >> ROOT/log'\"\n")}, desc=dict(kind="top-level mapping that is a valid task")))
+    cases.append(dict(files={"main.rh": dict(raw="#!/usr/bin/env rash\ndebug:\n  msg: x\n")}, desc=dict(kind="top-level mapping: a module")))
+    cases.append(dict(files={"main.rh": dict(raw="#!/usr/bin/env rash\njust text\n")}, desc=dict(kind="top-level string")))
+    cases.append(dict(files={"main.rh": dict(raw="#!/usr/bin/env rash\n42\n")}, desc=dict(kind="top-level number")))
+    cases.append(dict(files={"main.rh": dict(raw="#!/usr/bin/env rash\n- - command: \"sh -c 'echo k1 >> ROOT/log'\"\n")}, desc=dict(kind="nested list of tasks")))
     cases.append(dict(files={"main.rh": dict(raw="#!/usr/bin/env rash\n- command: \"echo k1 >> ROOT/log\"\n- [1, 2\n")}, desc=dict(kind="yaml syntax error after a valid task")))
     # an invalid task inside an included file: the include task fails, the tasks before it have run
     j = judge(run, [c for c in cases if "raw" not in c["files"]["main.rh"]], "no task before validation")
@@ -604,6 +611,17 @@ def c17(run, replay=None):
     exp = [l for l in want.split("\n") if l]
     if o["rc"] != 0 or got != exp:
         run.violation("rash.args inside included files: expected %r, got %r (rc %r)" % (exp, got, o["rc"]), dict(main=sc_main, one=sc_one, two=sc_two, observed=o))
+    # generate-then-include: the same path included several times, the file REWRITTEN in between (and by a loop):
+    # every include reads the file as it is then
+    gen = ("#!/usr/bin/env rash\n"
+           "- copy:\n    content: \"- debug:\\n    msg: gen-one\\n\"\n    dest: ROOT/out/gen.rh\n- include: ROOT/out/gen.rh\n"
+           "- copy:\n    content: \"- debug:\\n    msg: gen-two\\n- debug:\\n    msg: gen-two-b\\n\"\n    dest: ROOT/out/gen.rh\n- include: ROOT/out/gen.rh\n"
+           "- copy:\n    content: \"- assert:\\n    that: [\\\"false\\\"]\\n\"\n    dest: ROOT/out/gen.rh\n- include: ROOT/out/gen.rh\n  ignore_errors: true\n"
+           "- copy:\n    content: \"- debug:\\n    msg: gen-last\\n\"\n    dest: ROOT/out/gen.rh\n- include: ROOT/out/gen.rh\n  loop: [1, 2]\n")
+    o = E.run_impls([dict(files={"main.rh": dict(raw=gen)})])[0]
+    got = [l for l in o["stdout"].split("\n") if l.startswith("gen-")]
+    if o["rc"] != 0 or got != ["gen-one", "gen-two", "gen-two-b", "gen-last", "gen-last"]:
+        run.violation("a file rewritten between two includes of the same path: expected gen-one, gen-two, gen-two-b, gen-last x2; got %r (rc %r)" % (got, o["rc"]), dict(main=gen, observed=o))
     finish_cov(run, j,
                "include chains of depth 1-3 through files in different directories (a third of the files, the main script included, reached through symbolic links), includes under loop / when / ignore_errors, every file printing rash.path, rash.dir and a caller variable at start and end, "
                "with a failing assert, an invalid task or a variable write injected at random positions of the included files; non-trivial = distinct trees with more than one event")
